@@ -176,3 +176,36 @@ Example C06_trailer_applies :
   | None => False
   end.
 Proof. vm_compute. repeat split; reflexivity. Qed.
+
+(* ====================== server side, appended by builder sv (round 8; cw's theorems above are untouched) ======================
+   Proofs in Proofs/ServerRstOrigin.v (over sv's reset accounting, Proofs/ServerResetW.v). Model/Server.v, all label sequences. *)
+From Goat Require Proofs.ServerResetW Proofs.ServerRstOrigin Proofs.ServerLive.
+
+(* "a server reset answers a body for an unknown stream", all runs: EVERY reset the transport accepted is [rst_reply f] -
+   f's id and method, source and destination swapped - for an envelope f that the server read BEFORE (the history splits
+   as l1 ++ SvRead f :: l2): a stream-method envelope addressed to it, not itself a reset, carrying a body or - with
+   neither body nor trailer - undecodable metadata ([calls_for_reset]), whose id was not open at that point (no handler
+   invoked for it and not yet unregistered in l1: never opened, or no longer known). Nothing else makes the server write a
+   reset. (The converse, one reset per such envelope, in order: C12_reset_accounting / C12_reset_written.) *)
+Theorem C06_server_reset_only_answers_unknown_body : forall ls (s : Server.state) r,
+  Server.lrun Server.init ls = Some s -> In (Server.SvWrite r) (Server.log s) -> Server.is_rst r = true ->
+  exists f l1 l2, r = Server.rst_reply f /\ Server.log s = l1 ++ Server.SvRead f :: l2
+                  /\ ServerResetW.calls_for_reset f = true
+                  /\ ServerResetW.id_open (fst (ServerResetW.dscan l1)) (Server.fid f) = false.
+Proof. intros ls s r. exact (ServerRstOrigin.srv_reset_only_answers Server.nworkers ls s r). Qed.
+Print Assumptions C06_server_reset_only_answers_unknown_body.
+
+(* non-vacuity: a stream is opened and closed by its handler; a body for its id arrives afterwards (no longer known) and
+   one for an id never opened: two resets on the wire, in that order *)
+Definition sv6_frame (id : Z) (b : option Z) : Server.frame :=
+  Server.mkFrame (mkEnv id (Some (MdOk 0)) None b None false) (Server.MStream 3) 2 1.
+Definition sv6_state (acts : list Server.act) : Server.state :=
+  match Server.lrun Server.init (ServerLive.labels_of acts) with Some s => s | None => Server.init end.
+Definition sv6_acts : list Server.act :=
+  [ Server.ADeliver (sv6_frame 1 None); Server.AHandlerStep 0 (Server.HReturn None Server.HNil);
+    Server.ADeliver (sv6_frame 1 (Some 11)); Server.ADeliver (sv6_frame 2 (Some 12)) ].
+Example C06_server_reset_ex :
+  exists s, Server.lrun Server.init (ServerLive.labels_of sv6_acts) = Some s
+    /\ filter Server.is_rst (written (Server.log s)) = [Server.rst_reply (sv6_frame 1 (Some 11)); Server.rst_reply (sv6_frame 2 (Some 12))]
+    /\ ServerResetW.rst_due (Server.log s) = [sv6_frame 1 (Some 11); sv6_frame 2 (Some 12)].
+Proof. exists (sv6_state sv6_acts). vm_compute. repeat split. Qed.
